@@ -40,21 +40,21 @@ check("C13", "exploration",
       BASE_NOTE, "deterministic simulation: seeded scheduler on the Executor seam + preemption hooks, reference-interpreter oracle", "DESIGN.md section 4 C13")
 
 check("C14", "exploration",
-      "gen|relay|sink pipelines with payload sizes around every pipe-buffer boundary up to 4x capacity, command substitutions (plain/piped/nested/in-stage, 0-3 trailing newlines, multi-byte UTF-8), here-documents, the real read built-in on a slow producer, two processes writing PIPE_BUF-sized records to one pipe (no record torn) and two processes reading one pipe (every byte reaches exactly one of them), executed under seeded schedules with preemption at every read/write, short reads, legal partial writes and simulator-sent signals to stages that installed a trap; exact byte-stream oracle (length, first deviating offset, hash) computed by the generator; deadlock/livelock detection. The property is quantified over schedules x sizes, which only controlled scheduling of the real pipe code reaches.",
+      "gen|relay|sink pipelines with payload sizes around every pipe-buffer boundary up to 4x capacity, command substitutions (plain/piped/nested/in-stage, 0-3 trailing newlines, multi-byte UTF-8), here-documents, the real read built-in on a slow producer, two processes writing PIPE_BUF-sized records to one pipe (no record torn) and two processes reading one pipe (every byte reaches exactly one of them), executed under seeded schedules with preemption at every read/write, short reads, legal partial writes and simulator-sent signals to stages that installed a trap; exact byte-stream oracle (length, first deviating offset, hash) computed by the generator; deadlock/livelock detection; crash-injection runs (a stage killed from outside) check that every surviving process still terminates; every program ends by printing the shell's descriptor table, which must be the initial one. The property is quantified over schedules x sizes, which only controlled scheduling of the real pipe code reaches.",
       BASE_NOTE + " SIGPIPE is not modelled by the simulated kernel, so the early-exiting-reader cases check liveness and prefix integrity only.",
       "deterministic simulation: seeded scheduler + short-I/O/preemption/signal fault injection, exact byte-stream oracle", "DESIGN.md section 4 C14")
 
 check("C18", "exploration",
-      "Generated scripts (commands mixed with data lines read from the same input, alias/option changes affecting later lines, multi-line constructs, here-documents in every position where the grammar lets a newline follow the operator, planted syntax errors, a final consumer of the remaining input) are fed as a regular file, through a pipe written by a simulated feeder process in seeded chunk sizes under seeded schedules with preemption at every read, as a -c string and as a command file; oracles: trace/status equality with the generator's expectation in every variant and chunking, and at every `tell` probe the input has been consumed exactly to the end of the running command's last line (lseek offset for files; bytes read from fd 0 according to kernel events for pipes).",
+      "Generated scripts (commands mixed with data lines read from the same input, alias/option changes affecting later lines, multi-line constructs, here-documents in every position where the grammar lets a newline follow the operator, planted syntax errors, a final consumer of the remaining input) are fed as a regular file, through a pipe written by a simulated feeder process in seeded chunk sizes under seeded schedules with preemption at every read, as a -c string and as a command file; oracles: trace/status equality with the generator's expectation in every variant and chunking, and at every `tell` probe the input has been consumed exactly to the end of the running command's last line (lseek offset for files; bytes read from fd 0 according to kernel events for pipes). Fault configurations with a prefix oracle: the input source dies after a seeded number of bytes (short file / feeder closes the pipe) or the input file's reads start failing with EIO at a seeded read - everything delivered completely must have taken effect, nothing hangs, and the shell does not report success when its own reader failed.",
       BASE_NOTE, "deterministic simulation: simulated feeder process with seeded chunking + seeded scheduler; offset invariant from kernel read events", "DESIGN.md section 4 C18")
 
 check("C09", "fault_enumeration",
-      "Generated programs of commands (12 command kinds x all redirection operators x open/closed/internal/wrong-mode descriptors x existing/missing operands x noclobber) run on the simulated OS next to a POSIX redirection-table model that predicts the table the command sees, the results of I/O through the redirected descriptors, the persistent table after exec, statuses and final files. For every program the descriptor-allocation failure positions are ENUMERATED: the fault-free run counts the K allocations and K more runs fail exactly the k-th with EMFILE; plus RLIMIT_NOFILE soft limits 3..16. Under faults the invariants that must never be relaxed are checked: the shell's descriptor table after every non-exec command equals the table before it, no descriptor >= 10 survives an exec, descriptors >= 10 are exactly the close-on-exec ones, the shell terminates.",
+      "Generated programs of commands (12 command kinds x all redirection operators x open/closed/internal/wrong-mode descriptors x existing/missing operands x noclobber) run on the simulated OS next to a POSIX redirection-table model that predicts the table the command sees, the results of I/O through the redirected descriptors, the persistent table after exec, statuses and final files. For every program the descriptor-allocation failure positions are ENUMERATED: the fault-free run counts the K allocations and K more runs fail exactly the k-th with EMFILE; plus RLIMIT_NOFILE soft limits 3..16; likewise every position at which a write to a regular file can fail with ENOSPC (full disk) is enumerated (up to 12/40 per program). Under faults the invariants that must never be relaxed are checked: the shell's descriptor table after every non-exec command equals the table before it, no descriptor >= 10 survives an exec, descriptors >= 10 are exactly the close-on-exec ones, the shell terminates.",
       BASE_NOTE + " Failure positions are complete per program; programs are sampled. stderr content is not modelled.",
       "deterministic simulation with enumerated fault injection (every fd-allocation failure position per program) + reference redirection-table model", "DESIGN.md section 4 C09")
 
 check("C08", "exploration",
-      "Generated programs place 39 kinds of state-mutating commands (including closing descriptor 0, array values and starting asynchronous jobs) before and inside every kind of subshell (( ), $( ), both pipeline elements, asynchronous lists, nested to depth 3); a probe serialises the complete shell state (variables+attributes, positional parameters, functions, aliases, options, traps, cwd, umask, limits, descriptor table by open-file-description identity, signal dispositions, mask) around each one. Oracles: the parent's snapshot is unchanged by whatever the child does - also while an asynchronous child is still running, under seeded schedules with preemption between any two kernel calls of the parent; the child's entry snapshot equals the parent's except exactly the documented differences; data written to shared files/pipes arrives (positive control). A virtual fork is an in-memory clone sharing reference-counted parts, so leaks are schedule dependent - which only a controlled scheduler explores.",
+      "Generated programs place 39 kinds of state-mutating commands (including closing descriptor 0, array values and starting asynchronous jobs) before and inside every kind of subshell (( ), $( ), both pipeline elements, asynchronous lists, nested to depth 3); a probe serialises the complete shell state (variables+attributes, positional parameters, functions, aliases, options, traps, cwd, umask, limits, descriptor table by open-file-description identity, signal dispositions, mask) around each one. Oracles: the parent's snapshot is unchanged by whatever the child does - also while an asynchronous child is still running, under seeded schedules with preemption between any two kernel calls of the parent; the child's entry snapshot equals the parent's except exactly the documented differences; data written to shared files/pipes arrives (positive control). Crash-injection runs (children killed with SIGKILL from outside at seeded instants) keep the leak oracle and check every snapshot that was still taken. A virtual fork is an in-memory clone sharing reference-counted parts, so leaks are schedule dependent - which only a controlled scheduler explores.",
       BASE_NOTE, "deterministic simulation: full-state snapshots around subshells under seeded schedules with preemption", "DESIGN.md section 4 C08")
 
 check("C15", "exploration",
